@@ -84,7 +84,7 @@ func genBytes(tp *simrt.Tape, big bool) []byte {
 func genError(tp *simrt.Tape) *conformancev1.Error {
 	e := &conformancev1.Error{Code: conformancev1.Code(1 + tp.Choose(16, "err.code"))}
 	kind := tp.Choose(8, "err.msg")
-	if kind >= 6 {
+	if kind == 7 {
 		kind = 4 // the messages that need percent-encoding get three of eight draws
 	}
 	switch kind {
@@ -102,6 +102,11 @@ func genError(tp *simrt.Tape) *conformancev1.Error {
 		msgs := []string{"100% broken: a\tb\nc & d + e", "quota is 100% used", "%", "100%", "already %2F escaped", "50%25 literal",
 			"tab\there", "line\nbreak", "ünï only", "plus+and&amp", "ends with percent %", "%41 at the start"}
 		e.Message = proto.String(msgs[tp.Choose(len(msgs), "err.special")])
+	case 6:
+		// the edges of the printable range: '~' is the last byte sent as is, DEL and
+		// the C0 controls are escaped
+		msgs := []string{"del\x7fchar", "tilde ~ then del \x7f", "unit\x1fseparator", "\x7f", "space !first and ~last printable", "~\x7f\u0080"}
+		e.Message = proto.String(msgs[tp.Choose(len(msgs), "err.edge")])
 	case 5:
 		if tp.Bool(1, 4, "err.trailingspace") {
 			e.Message = proto.String("trailing space ")
@@ -221,7 +226,26 @@ func genSuiteFile(dir, name string, cases []*conformancev1.TestCase) (string, er
 		return "", err
 	}
 	path := filepath.Join(dir, name+".yaml")
-	return path, os.WriteFile(path, data, 0o644)
+	return path, os.WriteFile(path, yamlSafe(data), 0o644)
+}
+
+// yamlSafe makes protojson output loadable as YAML: protojson leaves DEL and the
+// C1 controls as they are, which YAML does not allow unescaped. They only occur
+// inside (double-quoted) strings, where both JSON and YAML read \uXXXX.
+func yamlSafe(data []byte) []byte {
+	out := make([]byte, 0, len(data))
+	for i := 0; i < len(data); i++ {
+		switch {
+		case data[i] == 0x7f:
+			out = append(out, `\u007f`...)
+		case data[i] == 0xc2 && i+1 < len(data) && data[i+1] >= 0x80 && data[i+1] <= 0x9f && data[i+1] != 0x85:
+			out = append(out, fmt.Sprintf(`\u%04x`, data[i+1])...)
+			i++
+		default:
+			out = append(out, data[i])
+		}
+	}
+	return out
 }
 
 // genSuiteFileFor writes an arbitrary suite message.
@@ -231,7 +255,7 @@ func genSuiteFileFor(dir string, suite *conformancev1.TestSuite) (string, error)
 		return "", err
 	}
 	path := filepath.Join(dir, strings.ReplaceAll(suite.Name, " ", "_")+".yaml")
-	return path, os.WriteFile(path, data, 0o644)
+	return path, os.WriteFile(path, yamlSafe(data), 0o644)
 }
 
 // genLoadCheck loads one case on its own through the real loading pipeline and
